@@ -46,11 +46,11 @@ class LConn(object):
 
 class LifeGen(object):
     def __init__(self, seed, napps=2, steps=60, restarts=True, use_time=True, names=None, body_prefix="L",
-                 p_illegal=0.03, list_cmd=True, closings=True, cross_app_mailboxes=False, probes=True, **ignored):
+                 p_illegal=0.03, list_cmd=True, closings=True, cross_app_mailboxes=False, probes=True, two_apps=False, **ignored):
         self.r = random.Random(seed * 2654435761 % (1 << 32) + 17)
         self.seed = seed
         r = self.r
-        self.apps = ["app"] if (napps < 2 or r.random() < 0.6) else ["app", "app2"]
+        self.apps = ["app"] if (napps < 2 or (r.random() < 0.6 and not two_apps)) else ["app", "app2"]
         pool = [n for n in (names or ["4", "7", "1"]) if isinstance(n, str)] or ["4"]
         self.name = r.choice(pool[:4])
         self.steps = steps
